@@ -33,6 +33,7 @@
 #define OP_FOL    4
 #define OP_MIN    5
 #define OP_FOREACH 6
+#define OP_INIT 7
 
 typedef struct { parsec_rbtree_node_t super; int pad; int key; } node_t;
 static node_t n0, n1, n2, n3, n4, n5;
@@ -156,6 +157,28 @@ static void visit(parsec_rbtree_node_t *n, void *cb)
 }
 #endif
 
+#if OP == OP_INIT
+/* base case: parsec_rbtree_init (real object system: parsec_object.c + parsec_list.c linked) gives a valid
+ * empty tree; a first insert gives a valid one-node tree */
+int main(void)
+{
+    for (unsigned i = 0; i < N; i++) in[i] = 0;
+    parsec_rbtree_init(&T, offsetof(node_t, key));
+    VASSERTM(T.nil == &T.nil_element && T.root == T.nil && T.comp_offset == offsetof(node_t, key), "init: empty tree header");
+    VASSERTM(T.nil_element.super.list_prev == (parsec_list_item_t*)&T.nil_element &&
+             T.nil_element.super.list_next == (parsec_list_item_t*)&T.nil_element, "init: nil sentinel's children are nil");
+    abstract();
+    VASSERTM(valid_abs(), "init: the empty tree satisfies the representation invariant (nil black)");
+    n0.key = IN_INT();
+    parsec_rbtree_insert(&T, &n0.super);
+    in[0] = 1;
+    abstract();
+    VASSERTM(valid_abs() && root == 0, "init + insert: valid one-node tree");
+    VASSERTM(parsec_rbtree_find(&T, n0.key) == &n0.super, "init + insert: the key is found");
+    VWITNESS("init then insert");
+    return 0;
+}
+#else
 int main(void)
 {
     int okey[N]; unsigned oin[N];
@@ -289,3 +312,4 @@ int main(void)
 #endif
     return 0;
 }
+#endif
